@@ -41,8 +41,8 @@ CFG = {
     },
     "gaps": [
         "C16_safe_f (DESIGN §8): the Safe_* side conditions (no truncated subtraction / shift / index out of range on well-formed values) are not stated per operation yet; absence of arithmetic panics is covered by the correspondence in the overflow-checking build profile only",
-        "C16_panics for range()/into_range() belongs to the iterator family (iter32); from_lsb0_bytes ≠ panic inside the documented domain is C17",
-        "C16_debug_total, C16_ranges, C16_convertRange_ok/_error/_nonempty are proved without assumptions beyond well-formedness (debug) / bounds that fit u32 (conversion)",
+        "proved for well-formed values (shared Bitmap.WF) and arguments of the right integer type: every mutator is total in both build configurations and keeps well-formedness (C16_mutators_total, C16_history_total, from C01); range()/into_range() panic exactly on the two documented inputs (C16_range_panics, from C03); from_lsb0_bytes never panics for offset + 8*len <= 2^32 and, for a multiple-of-8 offset, panics exactly past 2^32 (C16_lsb0_panics, from C17); select/min/max return None exactly when there is no such element (C16_select_total, C16_min_max_total); Debug is total and equals the SPEC string (C16_debug_total, C16_debug_spec)",
+        "C16_ranges, C16_convertRange_ok/_error/_nonempty are proved without assumptions beyond bounds that fit u32",
         "64-bit type (RoaringTreemap) and iterators: not covered by this profile (treemap / iter families)",
     ],
     "level_text": "Theorems (Lean 4, kernel-checked) about the model: for every bound pair that convert_range_to_inclusive rejects, insert_range/remove_range/range_cardinality return 0, contains_range returns true and the bitmap is unchanged; the conversion fails exactly on the empty intervals (never on a non-empty one); Debug formatting is total. Absence of arithmetic panics is tied to the Rust source by running the property's argument table on generated values in two build profiles (overflow checks on: a panic is a difference; off: a wrapped value is a difference). Unbounded quantifier = theorem for the range part; the rest = sampled.",
